@@ -58,6 +58,7 @@ def harnesses(tier, seed):
           "all (u64,u8,u16,u8) + per-field failures", covers=2),
         h("c10_parse_structure", "missing/empty/extra fields, signs, non-hex counter are refused; padded text parses", "concrete texts"),
         h("c10_parse_node_edges", "node 250..259", "1 symbolic digit", covers=2),
+        h("c10_parse_longest_canonical", "the longest text Display produces (25 bytes, zero-padded fields) parses to its fields", "1 symbolic digit", covers=1),
     ]
     if tier == "thorough":
         hs += [
